@@ -435,6 +435,69 @@ func ruleRowCache(p *Prog, r *Result) {
 	// group rows: a function that stores an aggregate's result into the tree (FunctionCallExpr.Result) and then
 	// evaluates a field with a context evaluates one *group* per pass; the per-row cache must be emptied for
 	// each group - inside the outermost loop that contains the evaluation, or before it when there is no loop
+	// groupCleared: the evaluation `in` (in fn, with context ctx) sits after a Clear of that context inside the
+	// loop that steps from group to group: the largest loop around the evaluation that also advances the plan
+	// (stores into a field of the receiver); without such a loop the function handles one group per call, and
+	// the Clear may come first in the function - or, when the context is a parameter of a helper that is only
+	// called directly, at each of its call sites (same rule there)
+	var groupCleared func(fn *ssa.Function, in ssa.Instruction, ctx ssa.Value, depth int) bool
+	groupCleared = func(fn *ssa.Function, in ssa.Instruction, ctx ssa.Value, depth int) bool {
+		var outer *Loop
+		for _, L := range naturalLoops(fn) {
+			if !L.Body[in.Block()] {
+				continue
+			}
+			advances := false
+			for b := range L.Body {
+				for _, in2 := range b.Instrs {
+					if st, ok := in2.(*ssa.Store); ok {
+						if o, _, base, ok := fieldOfAddr(st.Addr); ok && o != nil && len(fn.Params) > 0 && base == ssa.Value(fn.Params[0]) {
+							advances = true
+						}
+					}
+				}
+			}
+			if advances && (outer == nil || len(L.Body) > len(outer.Body)) {
+				outer = L
+			}
+		}
+		var region map[*ssa.BasicBlock]bool
+		if outer != nil {
+			region = outer.Body
+		}
+		if clearedBefore(fn, in, ctx, region) {
+			return true
+		}
+		if outer != nil || depth >= 3 {
+			return false
+		}
+		pi := -1
+		for i, prm := range fn.Params {
+			if ssa.Value(prm) == ctx {
+				pi = i
+			}
+		}
+		if pi < 0 {
+			return false
+		}
+		node := p.CG().Nodes[fn]
+		if node == nil || len(node.In) == 0 {
+			return false
+		}
+		for _, e := range node.In {
+			if e.Site == nil || e.Site.Common().StaticCallee() != fn || !p.InPkg(e.Caller.Func) {
+				return false
+			}
+			args := e.Site.Common().Args
+			if pi >= len(args) || isNilConst(args[pi]) {
+				continue
+			}
+			if !groupCleared(e.Caller.Func, e.Site, args[pi], depth+1) {
+				return false
+			}
+		}
+		return true
+	}
 	for _, fn := range p.Funcs {
 		storesResult := false
 		allInstrs(fn, func(in ssa.Instruction) {
@@ -447,7 +510,6 @@ func ruleRowCache(p *Prog, r *Result) {
 		if !storesResult {
 			continue
 		}
-		loops := naturalLoops(fn)
 		ord := 0
 		allInstrs(fn, func(in ssa.Instruction) {
 			ci, ok := in.(ssa.CallInstruction)
@@ -472,34 +534,9 @@ func ruleRowCache(p *Prog, r *Result) {
 			if !touching {
 				return
 			}
-			// the loop that steps from group to group: the largest loop around the evaluation that also advances
-			// the plan (stores into a field of the receiver); without one, the function handles one group per call
-			var outer *Loop
-			for _, L := range loops {
-				if !L.Body[in.Block()] {
-					continue
-				}
-				advances := false
-				for b := range L.Body {
-					for _, in2 := range b.Instrs {
-						if st, ok := in2.(*ssa.Store); ok {
-							if o, _, base, ok := fieldOfAddr(st.Addr); ok && o != nil && len(fn.Params) > 0 && base == ssa.Value(fn.Params[0]) {
-								advances = true
-							}
-						}
-					}
-				}
-				if advances && (outer == nil || len(L.Body) > len(outer.Body)) {
-					outer = L
-				}
-			}
-			var region map[*ssa.BasicBlock]bool
-			if outer != nil {
-				region = outer.Body
-			}
 			nCalls++
 			ord++
-			r.add(clearedBefore(fn, in, ctx, region), fmt.Sprintf("%s|group|%s#%d", p.FName(fn), callDesc(p, ci), ord), p.InstrPos(in), "the fields of a group are evaluated with a context emptied for that group (the per-row cache is keyed by field name: a count cached for the previous group would be reused)")
+			r.add(groupCleared(fn, in, ctx, 0), fmt.Sprintf("%s|group|%s#%d", p.FName(fn), callDesc(p, ci), ord), p.InstrPos(in), "the fields of a group are evaluated with a context emptied for that group (the per-row cache is keyed by field name: a count cached for the previous group would be reused)")
 		})
 	}
 	r.floor("calls handing loop-variant rows and a context to cache-touching code", nCalls, 4)
